@@ -117,10 +117,11 @@ def run(prop, seed, budget, ctx):
     if prop == "C07":
         # minProperties / maxProperties on a class-typed position bound the keys of the datum; a value whose image (completed
         # with defaults) exceeds them is not a value of the constrained type
-        from engine_ser import has_props_bound_on_class, ambiguous_union
+        from engine_ser import has_props_bound_on_class, ambiguous_union, has_unique
         # ... and a union two alternatives of which share a runtime class serializes a value of the later one through the earlier
         # one (the documented first-match rule): outside the statement's domain, as in C04 / C05
-        types = [t for t in types if not has_props_bound_on_class(t) and not ambiguous_union(t)]
+        # ... and uniqueItems is tested on the raw data: distinct data may have equal images, which are not values of the type
+        types = [t for t in types if not has_props_bound_on_class(t) and not ambiguous_union(t) and not has_unique(t)]
     if prop == "C06":
         # field-level fall_back_on_default accepts what the schema cannot describe: outside the statement's domain
         types = [t for t in types if no_fbod(t)]
